@@ -159,8 +159,13 @@ def check_c03(rec, nodes, spec, wall: bool = False, strict_buffer_skip: bool = T
 
                 if wall:
                     continue
+                # a step start within 1e-6 of the expected arrival is judged only when the configured expected arrival and the runtime's own
+                # expression (seq / rate + connection phase, same operation order) agree bit for bit: then the comparison the runtime made is known
+                exact = texp == i / rate_u + float(c.phase)
+                if exact:
+                    V.p("buffer_expected_arrival_exact")
                 if not elig(k):
-                    if abs(bv[k] - texp) < EPS6:
+                    if abs(bv[k] - texp) < EPS6 and not exact:
                         V.ambiguous += 1
                     elif c.skip and bv[k] == recv[i]:
                         V.v("4.3-buffer-skip-needs-strictly-after", src=u, dst=v, i=i, k=k, start=bv[k], recv=recv[i])
@@ -168,7 +173,7 @@ def check_c03(rec, nodes, spec, wall: bool = False, strict_buffer_skip: bool = T
                         V.v("4.3-buffer-before-expected-arrival", src=u, dst=v, i=i, k=k, start=bv[k], recv=recv[i], expected=texp)
                 lo = int(si[i - 1]) if i > 0 else 0
                 if k > lo and elig(k - 1):
-                    if abs(bv[k - 1] - texp) < EPS6:
+                    if abs(bv[k - 1] - texp) < EPS6 and not exact:
                         V.ambiguous += 1
                     else:
                         V.v("4.3-buffer-not-first-eligible-step", src=u, dst=v, i=i, k=k, prev_start=bv[k - 1], recv=recv[i], expected=texp)
@@ -178,6 +183,8 @@ def check_c03(rec, nodes, spec, wall: bool = False, strict_buffer_skip: bool = T
                     V.p("tie")
                     if c.skip:
                         V.p("skip_tie")
+                if bv[k] == texp or (k > 0 and bv[k - 1] == texp):
+                    V.p("buffer_expected_tie")
         # --- 4.4 window contents
         steps = rec.nodes[v].steps
         if steps.inputs is not None:
